@@ -449,6 +449,8 @@ class TokVal(AbstractValue):
         self.facts = facts
         self.inst = inst
         self._cache = {}
+        self.loaded = set()
+        self.nested = []
         self.prov = ('token', cls.short)
 
     def __repr__(self):
@@ -514,6 +516,7 @@ class TokVal(AbstractValue):
     def abs_getattr(self, interp, name):
         if name == '__class__':
             return self.cls
+        self.loaded.add(name)
         if name in self._cache and name + '#conv' in self._cache:
             return self._cache[name + '#conv']
         vals = self._values(name)
@@ -555,8 +558,12 @@ class TokVal(AbstractValue):
             return Taint(label)
         if isinstance(v, tk.Children):
             return RenderChildren(v.kind, self)
+        if isinstance(v, AbsInt):
+            return AbsInt(('attr', label))
         if isinstance(v, Obj):
-            return TokVal(v.cls, self.facts, inst=tk.Instance(v.cls, v.attrs, 'nested'))
+            t = TokVal(v.cls, self.facts, inst=tk.Instance(v.cls, v.attrs, 'nested'))
+            self.nested.append(t)
+            return t
         if isinstance(v, (list, tuple)):
             return type(v)(self.convert(x, name) for x in v)
         if isinstance(v, Cond):
